@@ -115,6 +115,13 @@ def histories(depth):
                 if depth >= 3:
                     for b in rest:
                         out.append([f, a, b])
+    if depth < 3:
+        # load-then-change-key histories are the shortest ones that involve a value that was *loaded* (not assigned)
+        # before a key file changes; they are always included
+        for load in ("same", "fresh", "files"):
+            for change in ("rekey-root", "rekey-sub", "move-sub", "append"):
+                out.append(["assign-attr", load, change])
+            out.append(["assign-tree", load, "rekey-root"])
     return out
 
 
